@@ -412,11 +412,11 @@ pub struct Witness {
 }
 
 fn pspec(mode: Mode, fin: Fin) -> PuppetSpec {
-    PuppetSpec { mode, late: false, fin, burst: 0, eager_end: false, per_pull: 1, on_stop: None, on_stop2: None, feedback: None, on_pull: None }
+    PuppetSpec { mode, late: false, fin, burst: 0, eager_end: false, per_pull: 1, on_stop: None, on_stop2: None, feedback: None, on_pull: None, backlog: false }
 }
 
 fn base_spec(topo: Topo, pspecs: Vec<PuppetSpec>, lens: Vec<usize>, probe_specs: Vec<ProbeSpec>) -> CaseSpec {
-    CaseSpec { topo, pspecs, lens, probe_specs, max_steps: 0, drain: false, credit_env: false, weights: [1, 1, 1, 1, 1, 1] }
+    CaseSpec { topo, pspecs, lens, probe_specs, max_steps: 0, drain: false, credit_env: false, extra_credit: 0, weights: [1, 1, 1, 1, 1, 1] }
 }
 
 pub fn witnesses() -> Vec<Witness> {
@@ -455,7 +455,7 @@ pub fn witnesses() -> Vec<Witness> {
                 Topo::Share(2),
                 vec![pspec(Mode::PullSync, Fin::End)],
                 vec![2],
-                vec![ProbeSpec { policy: vec![React::Nothing], rest: React::Pull, pull_cap: 1000, attach: None, poke: None, feed: None, only_attached: false, late_pulls: false, drop_talkback: false }, ProbeSpec::passive()],
+                vec![ProbeSpec { policy: vec![React::Nothing], rest: React::Pull, pull_cap: 1000, attach: None, poke: None, feed: None, only_attached: false, late_pulls: false, drop_talkback: false, late_pull_nested: false }, ProbeSpec::passive()],
             ),
             acts: vec![Act::Subscribe(1), Act::ProbeAct(1, React::Pull)],
         },
@@ -467,8 +467,8 @@ pub fn witnesses() -> Vec<Witness> {
                 vec![pspec(Mode::PullSync, Fin::End)],
                 vec![3],
                 vec![
-                    ProbeSpec { policy: vec![React::Nothing, React::Pull, React::Nothing], rest: React::Nothing, pull_cap: 1000, attach: None, poke: None, feed: None, only_attached: false, late_pulls: false, drop_talkback: false },
-                    ProbeSpec { policy: vec![React::Nothing, React::Terminate], rest: React::Nothing, pull_cap: 1000, attach: None, poke: None, feed: None, only_attached: false, late_pulls: false, drop_talkback: false },
+                    ProbeSpec { policy: vec![React::Nothing, React::Pull, React::Nothing], rest: React::Nothing, pull_cap: 1000, attach: None, poke: None, feed: None, only_attached: false, late_pulls: false, drop_talkback: false, late_pull_nested: false },
+                    ProbeSpec { policy: vec![React::Nothing, React::Terminate], rest: React::Nothing, pull_cap: 1000, attach: None, poke: None, feed: None, only_attached: false, late_pulls: false, drop_talkback: false, late_pull_nested: false },
                 ],
             ),
             acts: vec![Act::Subscribe(1), Act::ProbeAct(1, React::Pull)],
@@ -497,7 +497,7 @@ fn k3_spec() -> CaseSpec {
         Topo::Flatten(2),
         vec![pspec(Mode::Listen, Fin::End), inner1, pspec(Mode::PullSync, Fin::End)],
         vec![2, 2, 2],
-        vec![ProbeSpec { policy: vec![React::Nothing, React::Terminate], rest: React::Nothing, pull_cap: 1000, attach: None, poke: None, feed: None, only_attached: false, late_pulls: false, drop_talkback: false }],
+        vec![ProbeSpec { policy: vec![React::Nothing, React::Terminate], rest: React::Nothing, pull_cap: 1000, attach: None, poke: None, feed: None, only_attached: false, late_pulls: false, drop_talkback: false, late_pull_nested: false }],
     )
 }
 
